@@ -33,12 +33,17 @@ def gen(rng, num):
             d["min"] = mean - rng.choice([1.0, 0.5, 3.0]) * std
         if k in ("gauss_b", "gauss_hi"):
             d["max"] = mean + rng.choice([1.0, 0.25, 3.0]) * std
+        if rng.random() < 0.25:
+            # bounds with the value zero (int or float) and negative bounds are bounds like any other
+            if "max" in d: d["max"] = rng.choice([0, 0.0, -1.0]); d["mean"] = mean = rng.choice([-1.0, 0.0, 0.5])
+            if "min" in d: d["min"] = rng.choice([0, 0.0]) if "max" not in d else min(d["max"], rng.choice([-3.0, -1.0]))
+            if "min" in d and "max" not in d: d["mean"] = mean = rng.choice([-0.5, 0.0, 1.0])
         return k, d, "2 %s %s %s %s" % (F(mean), F(std), OPT(d.get("min")), OPT(d.get("max")))
     if k.startswith("exp"):
         mean = rng.choice([1.0, 5.0, 10.0])
         d = dict(distribution="exponential", mean=mean)
         if k == "exp_max":
-            d["max"] = rng.choice([0.5 * mean, 2.0 * mean, 10.0 * mean])
+            d["max"] = rng.choice([0.5 * mean, 2.0 * mean, 10.0 * mean, 0, 0.0])
         return k, d, "3 %s %s" % (F(mean), OPT(d.get("max")))
     if k == "piece":
         n = rng.randrange(2, 6)
@@ -91,7 +96,11 @@ def run(ctx):
         elif kind.startswith("gauss"):
             ctx.oracle(len(out) == num, "C04.gaussian.count", site, "count", cs)
             if "min" in v:
-                ctx.oracle(all(x >= v["min"] for x in out), "C04.gaussian.lower_bound", site,
+                # the known finding F-C04a (np.clip(minimum, maximum, r): only the upper bound is applied) explains a
+                # value below `min` only when that value is exactly min(draw, max); anything else is another defect
+                raw = [v["mean"] + v["std"] * z for z in draws]
+                expl = len(raw) == len(out) and all(x == min(r_, v.get("max", float("inf"))) for x, r_ in zip(out, raw))
+                ctx.oracle(all(x >= v["min"] for x in out), "C04.gaussian.lower_bound" if expl else "C04.gaussian.lower_bound.other", site,
                            "min=%r but values %r (normal draws %r)" % (v["min"], [x for x in out if x < v["min"]][:3], draws[:3]), cs)
             if "max" in v:
                 ctx.oracle(all(x <= v["max"] for x in out), "C04.gaussian.upper_bound", site, "max=%r values %r" % (v["max"], out), cs)
